@@ -208,7 +208,13 @@ theorem Grows.combine {a st2 : St} (h : Grows a st2) (r : Res) (t1 : Rat) (rest 
     (h1 : a.clock ≤ t1) (hOk : a.clock ≤ tOk) : Grows a (fanCombine r t1 rest st2 tOk).2 := by
   unfold Asl.fanCombine
   repeat' split
-  all_goals first | exact h | exact h.at _ h1 | exact h.at _ hOk | exact h.multiFail
+  all_goals first
+    | exact h
+    | exact h.at _ h1
+    | exact h.at _ hOk
+    | exact h.multiFail
+    | exact (h.at _ h1).trans (grows_same _ _ rfl rfl rfl Rat.le_refl)
+    | exact h.trans (grows_same _ _ rfl rfl rfl Rat.le_refl)
 
 /-- the seven functions at fuel `n` -/
 structure GrowsAll (env : Env) (n : Nat) : Prop where
@@ -354,7 +360,7 @@ theorem grows_runItems_step (proc : Json) (sel : Option Json) (input : Json) (it
       · exact Grows.refl _
     generalize (if mc ≠ 0 ∧ i ≠ 0 ∧ i % mc = 0 then st.waitUntil be else st) = st0 at g00 ⊢
     split
-    · exact g00.multiFail
+    · exact g00.trans (grows_same _ _ rfl rfl rfl Rat.le_refl)
     · rename_i params hp
       split
       · rename_i start states hs hst
